@@ -43,10 +43,10 @@ import (
 	"tunnox-core/internal/cloud/models"
 	"tunnox-core/internal/cloud/repos"
 	"tunnox-core/internal/cloud/services"
-	coreerrors "tunnox-core/internal/core/errors"
-	"tunnox-core/internal/core/idgen"
 	"tunnox-core/internal/cloud/stats"
 	"tunnox-core/internal/constants"
+	coreerrors "tunnox-core/internal/core/errors"
+	"tunnox-core/internal/core/idgen"
 	"tunnox-core/internal/core/storage"
 	"tunnox-core/internal/core/storage/memory"
 	"tunnox-core/internal/core/types"
@@ -279,6 +279,10 @@ type caseT struct {
 	ts         string // none | bridge | remote
 	tsMid      string
 	served     bool
+	scid       int64  // what the transport object behind the requester's stream answers to GetClientID()
+	temp       bool   // ... and to CanCreateTemporaryControlConn()
+	asserts    bool   // the transport object has these methods at all
+	cfg        string // "" | norouting (no routing table on this node) | nodedown (node-B cannot be reached)
 	late       string // "" | bridge | route | remote : what appears for the tunnel id while the request polls (ts none only)
 	lateMid    string
 	parseError string
@@ -313,17 +317,24 @@ func (c *caseT) String() string {
 		}
 		fmt.Fprintf(&sb, " %s %d %d %s %s %s %s", m.id, m.listen, m.target, dash(m.secret), st, b2s(m.revoked), strconv.Itoa(m.expired))
 	}
-	fmt.Fprintf(&sb, " conn %d %d req %s %s %s ts ", c.hs, c.cid, dash(c.rmid), dash(c.rsec), dash(c.rtok))
+	fmt.Fprintf(&sb, " conn %d %d", c.hs, c.cid)
+	if c.asserts {
+		fmt.Fprintf(&sb, " asserts %d %s", c.scid, b2s(c.temp))
+	}
+	fmt.Fprintf(&sb, " req %s %s %s ts ", dash(c.rmid), dash(c.rsec), dash(c.rtok))
 	switch c.ts {
 	case "bridge":
 		fmt.Fprintf(&sb, "bridge %s %s", c.tsMid, b2s(c.served))
-	case "remote", "local":
+	case "remote", "local", "expired":
 		fmt.Fprintf(&sb, "%s %s", c.ts, c.tsMid)
 	default:
 		sb.WriteString("none")
 	}
 	if c.late != "" {
 		fmt.Fprintf(&sb, " late %s %s", c.late, c.lateMid)
+	}
+	if c.cfg != "" {
+		fmt.Fprintf(&sb, " cfg %s", c.cfg)
 	}
 	return sb.String()
 }
@@ -368,6 +379,12 @@ func parseCase(s string) (c *caseT, err error) {
 	expect("conn")
 	c.hs = int(atoi(next()))
 	c.cid = atoi(next())
+	if t[i] == "asserts" {
+		next()
+		c.asserts = true
+		c.scid = atoi(next())
+		c.temp = next() == "1"
+	}
 	expect("req")
 	c.rmid = undash(next())
 	c.rsec = undash(next())
@@ -378,13 +395,19 @@ func parseCase(s string) (c *caseT, err error) {
 	case "bridge":
 		c.tsMid = next()
 		c.served = next() == "1"
-	case "remote", "local":
+	case "remote", "local", "expired":
 		c.tsMid = next()
 	case "none":
 	default:
 		panic("bad ts " + c.ts)
 	}
-	if i < len(t) {
+	if i < len(t) && t[i] == "cfg" {
+		next()
+		c.cfg = next()
+		if c.cfg != "norouting" && c.cfg != "nodedown" {
+			panic("bad cfg " + c.cfg)
+		}
+	} else if i < len(t) {
 		expect("late")
 		c.late = next()
 		if c.late != "bridge" && c.late != "route" && c.late != "remote" && c.late != "window" {
@@ -393,6 +416,13 @@ func parseCase(s string) (c *caseT, err error) {
 		c.lateMid = next()
 		if c.ts != "none" {
 			panic("late only with ts none")
+		}
+		if i < len(t) {
+			expect("cfg")
+			c.cfg = next()
+			if c.cfg != "nodedown" {
+				panic("only cfg nodedown combines with late")
+			}
 		}
 	}
 	return c, nil
@@ -414,17 +444,22 @@ type world struct {
 	ccs    *services.ConnectionCodeService
 	cc     *managers.BuiltinCloudControl
 	gs     *gateStore
+	st     storage.Storage
+	decoy  *assertingConn
 	rt     *session.TunnelRoutingTable
 	conns  []*pipeEnd
 	ln     net.Listener
 	fwd    atomic.Bool
 }
 
-func newWorld() *world {
+func newWorld() *world { return newWorldCfg("") }
+
+func newWorldCfg(cfg string) *world {
 	w := &world{}
 	w.ctx, w.cancel = context.WithCancel(context.Background())
 	w.gs = &gateStore{Storage: memory.New(w.ctx)}
 	var st storage.Storage = w.gs
+	w.st = st
 	repo := repos.NewRepository(st)
 	cc := factories.NewBuiltinCloudControlWithRepo(w.ctx, managers.DefaultConfig(), st, repo)
 	w.mrepo = repos.NewPortMappingRepo(repo)
@@ -438,9 +473,11 @@ func newWorld() *world {
 	w.sm.SetCloudControl(session.NewCloudControlAdapter(cc))
 	w.sm.SetNodeID("node-A")
 	w.rt = session.NewTunnelRoutingTable(st, 30*time.Second)
-	w.sm.SetTunnelRoutingTable(w.rt)
+	if cfg != "norouting" {
+		w.sm.SetTunnelRoutingTable(w.rt)
+	}
 	w.sm.SetTunnelConnectionManager(session.NewTunnelConnectionManager(func(nodeID string) (string, error) {
-		if w.ln == nil {
+		if w.ln == nil || cfg == "nodedown" {
 			return "", errors.New("no such node")
 		}
 		return w.ln.Addr().String(), nil
@@ -510,12 +547,65 @@ func (w *world) connect(name string) (*peer, error) {
 	return &peer{id: sc.ID, srv: srv, cli: cli}, nil
 }
 
+// assertingConn is a transport object that, like a transport which authenticates its peer itself, answers
+// GetClientID / CanCreateTemporaryControlConn / SetMappingID (the interfaces handleTunnelOpen probes the
+// stream's reader for).  No transport in the repository does; the double drives those branches.
+type assertingConn struct {
+	*pipeEnd
+	cid     int64
+	temp    bool
+	mapping atomic.Value
+	asked   atomic.Int64 // how often GetClientID was called
+}
+
+func (a *assertingConn) GetClientID() int64                  { a.asked.Add(1); return a.cid }
+func (a *assertingConn) CanCreateTemporaryControlConn() bool { return a.temp }
+func (a *assertingConn) SetMappingID(m string)               { a.mapping.Store(m) }
+
+func (w *world) connectAsserting(name string, cid int64, temp bool) (*peer, error) {
+	srv, cli := newPipe(name)
+	w.conns = append(w.conns, srv)
+	ac := &assertingConn{pipeEnd: srv, cid: cid, temp: temp}
+	sc, err := w.sm.AcceptConnection(ac, ac)
+	if err != nil {
+		return nil, err
+	}
+	if name == "decoy" {
+		w.decoy = ac
+	}
+	return &peer{id: sc.ID, srv: srv, cli: cli}, nil
+}
+
+// awaitNotifyScan: startSourceBridge starts `go notifyTargetClientToOpenTunnel`, which (no control connection of
+// the target client being registered) scans a snapshot of all connections and asks each transport object for its
+// client id.  A connection made after the decoy was asked is not in that snapshot: the requester then cannot be
+// picked up by a notification belonging to the set-up phase.
+func (w *world) awaitNotifyScan(before int64) bool {
+	if w.decoy == nil {
+		return true
+	}
+	for dl := time.Now().Add(3 * time.Second); time.Now().Before(dl); {
+		if w.decoy.asked.Load() > before {
+			return true
+		}
+		time.Sleep(100 * time.Microsecond)
+	}
+	return false
+}
+
 func (w *world) handshake(p *peer, cid int64, ok bool) {
 	tok := "bad"
 	if ok {
 		tok = "ok"
 	}
 	pl, _ := json.Marshal(&packet.HandshakeRequest{ClientID: cid, Token: tok, Version: "verif", Protocol: "tcp", ConnectionType: "tunnel"})
+	w.sm.HandlePacket(&types.StreamPacket{ConnectionID: p.id, Packet: &packet.TransferPacket{PacketType: packet.Handshake, Payload: pl}})
+	p.cli.drain()
+}
+
+// controlHandshake: the client's long-lived control connection (ConnectionType "control").
+func (w *world) controlHandshake(p *peer, cid int64) {
+	pl, _ := json.Marshal(&packet.HandshakeRequest{ClientID: cid, Token: "ok", Version: "verif", Protocol: "tcp", ConnectionType: "control"})
 	w.sm.HandlePacket(&types.StreamPacket{ConnectionID: p.id, Packet: &packet.TransferPacket{PacketType: packet.Handshake, Payload: pl}})
 	p.cli.drain()
 }
@@ -598,7 +688,7 @@ func (w *world) startNodeB() error {
 // the secret the server would hand it: both must be admitted and bytes must flow (the repaired dispatcher still
 // serves the legitimate parties).
 //
-//	case: e2e     obs: secret <set|empty> src <ack> tgt <ack> data <0|1>
+//	case: e2e     obs: secret <set|empty> src <ack> pushed <0|1> leak <0|1> tgt <ack> data <0|1>   (the target learns tunnel id, mapping id and secret from the command pushed on its control connection; a bystander control connection must receive nothing)
 func runE2E() string {
 	w := newWorld()
 	defer w.close()
@@ -611,6 +701,17 @@ func runE2E() string {
 	if pm.SecretKey == "" {
 		sec = "empty"
 	}
+	// control connections of the target client and of a bystander are up before the tunnel is opened
+	tctl, err := w.connect("Tctl")
+	if err != nil {
+		return "setup-failed:connect"
+	}
+	w.controlHandshake(tctl, 22)
+	bctl, err := w.connect("Bctl")
+	if err != nil {
+		return "setup-failed:connect"
+	}
+	w.controlHandshake(bctl, 33)
 	src, err := w.connect("S")
 	if err != nil {
 		return "setup-failed:connect"
@@ -619,12 +720,29 @@ func runE2E() string {
 	w.open(src, openPayload(pm.ID, "", ""))
 	srcAck, _ := readAck(src.cli.snapshot())
 	src.cli.drain()
+	// the server tells the target client (and nobody else) which tunnel to join, with which secret
+	var cmd struct {
+		TunnelID  string `json:"tunnel_id"`
+		MappingID string `json:"mapping_id"`
+		SecretKey string `json:"secret_key"`
+	}
+	pushed := false
+	for dl := time.Now().Add(2 * time.Second); time.Now().Before(dl) && !pushed; {
+		sp := stream.NewStreamProcessor(bytes.NewReader(tctl.cli.snapshot()), io.Discard, context.Background())
+		if pkt, _, err := sp.ReadPacket(); err == nil && pkt != nil && pkt.CommandPacket != nil &&
+			json.Unmarshal([]byte(pkt.CommandPacket.CommandBody), &cmd) == nil && cmd.TunnelID == tunnelID {
+			pushed = true
+		}
+		sp.Close()
+		time.Sleep(200 * time.Microsecond)
+	}
+	leak := len(bctl.cli.snapshot()) > 0
 	tgt, err := w.connect("T")
 	if err != nil {
 		return "setup-failed:connect"
 	}
 	w.handshake(tgt, 22, true)
-	w.open(tgt, openPayload(pm.ID, pm.SecretKey, ""))
+	w.open(tgt, openPayload(cmd.MappingID, cmd.SecretKey, ""))
 	tgtAck, _ := readAck(tgt.cli.snapshot())
 	src.cli.Write([]byte(marker))
 	data := false
@@ -638,7 +756,7 @@ func runE2E() string {
 	if data {
 		waitEcho(tgt, src)
 	}
-	return fmt.Sprintf("secret %s src %s tgt %s data %s", sec, srcAck, tgtAck, b2s(data))
+	return fmt.Sprintf("secret %s src %s pushed %s leak %s tgt %s data %s", sec, srcAck, b2s(pushed), b2s(leak), tgtAck, b2s(data))
 }
 
 // runRMW: a revocation racing a read-modify-write of the same mapping record.
@@ -646,7 +764,9 @@ func runE2E() string {
 //	case: rmw <usage|stats|status>    obs: revoked <0|1> ack <..> att <..> data <0|1>
 //
 // usage  = the listen client opens a tunnel: HandleTunnelOpen → RecordMappingUsage reads the record, sets LastActive
-//          and writes the whole record back (its write is held by the gated store);
+//
+//	and writes the whole record back (its write is held by the gated store);
+//
 // stats  = the bridge's periodic traffic report: UpdatePortMappingStats, same read-modify-write shape;
 // status = UpdatePortMappingStatus(active) (re-activation by configuration push).
 // While that write is pending the target client revokes the mapping (conncode.RevokeMapping, real code).  The
@@ -724,7 +844,11 @@ func runRMW(writer string) string {
 	}
 	w.handshake(r, mapM.target, true)
 	done := make(chan struct{})
-	go func() { defer close(done); defer func() { recover() }(); w.open(r, openPayload(mapM.id, mapM.secret, "")) }()
+	go func() {
+		defer close(done)
+		defer func() { recover() }()
+		w.open(r, openPayload(mapM.id, mapM.secret, ""))
+	}()
 	select {
 	case <-done:
 	case <-time.After(1500 * time.Millisecond):
@@ -783,7 +907,7 @@ func guarded(f func() string) (obs string) {
 }
 
 func runCaseInner(c *caseT) string {
-	w := newWorld()
+	w := newWorldCfg(c.cfg)
 	defer w.close()
 
 	final := map[string]mappingT{}
@@ -820,9 +944,19 @@ func runCaseInner(c *caseT) string {
 			return "setup-failed:connect"
 		}
 		w.handshake(src, setup.listen, true)
+		var asked int64
+		if c.asserts {
+			if _, err := w.connectAsserting("decoy", 999, false); err != nil {
+				return "setup-failed:connect"
+			}
+			asked = w.decoy.asked.Load()
+		}
 		w.open(src, openPayload(setup.id, "", ""))
 		if mid, s, _, ok := w.sm.VerifBridgeEnds(tunnelID); !ok || mid != setup.id || s == "" {
 			return "setup-failed:source-bridge"
+		}
+		if !w.awaitNotifyScan(asked) {
+			return "setup-failed:notify-scan"
 		}
 		src.cli.drain()
 		if c.served {
@@ -881,10 +1015,29 @@ func runCaseInner(c *caseT) string {
 		if err := w.rt.RegisterWaitingTunnel(w.ctx, st); err != nil {
 			return "setup-failed:route"
 		}
+	case "expired":
+		// a waiting route whose own expiry time has passed while the storage entry is still there
+		if err := w.startNodeB(); err != nil {
+			return "setup-failed:listen"
+		}
+		st := &session.TunnelWaitingState{TunnelID: tunnelID, MappingID: c.tsMid, SourceNodeID: "node-B",
+			CreatedAt: time.Now().Add(-time.Minute), ExpiresAt: time.Now().Add(-30 * time.Second)}
+		if err := w.st.Set("tunnox:tunnel_waiting:"+tunnelID, st, time.Minute); err != nil {
+			return "setup-failed:route"
+		}
+		if _, err := w.rt.LookupWaitingTunnel(w.ctx, "no-such-tunnel"); err == nil {
+			return "setup-failed:route"
+		}
 	}
 
 	// ---- the request under test
-	r, err := w.connect("R")
+	var r *peer
+	var err error
+	if c.asserts {
+		r, err = w.connectAsserting("R", c.scid, c.temp)
+	} else {
+		r, err = w.connect("R")
+	}
 	if err != nil {
 		return "setup-failed:connect"
 	}
@@ -1040,7 +1193,7 @@ func runCaseInner(c *caseT) string {
 			att = "src"
 		}
 	}
-	if att == "none" && (c.ts == "remote" || c.ts == "local" || c.late == "remote" || c.late == "route") {
+	if att == "none" && (c.ts == "remote" || c.ts == "local" || c.ts == "expired" || c.late == "remote" || c.late == "route") {
 		wait := 20 * time.Millisecond
 		if ack == "ok" {
 			wait = 500 * time.Millisecond
@@ -1077,9 +1230,17 @@ func runCaseInner(c *caseT) string {
 		// Bridge.Start is still launching its second copy goroutine dereferences a nil forwarder — not C04's subject)
 		waitEcho(r, src)
 	}
-	if !data && len(rest) > 0 {
-		// anything after the ack that is not a protocol packet counts as traffic
-		data = true
+	if !data {
+		// anything after the ack that is not another acknowledgement packet counts as traffic (the late cross-node
+		// path acknowledges a second time in forwardToSourceNode)
+		for len(rest) > 0 {
+			a, more := readAck(rest)
+			if a != "ok" && a != "fail" {
+				data = true
+				break
+			}
+			rest = more
+		}
 	}
 	return fmt.Sprintf("ack %s att %s data %s ret %s", ack, att, b2s(data), ret)
 }
@@ -1161,6 +1322,74 @@ func lateMatrix() []*caseT {
 						maps: []mappingT{mapM, mapF}, ts: "none", late: kind, lateMid: mid})
 				}
 			}
+		}
+	}
+	return out
+}
+
+// transportMatrix: the transport object behind the requester's stream asserts a client id and may vouch for it
+// (temporary control connection without handshake; source/target role taken from the asserted id, which reaches
+// Bridge.SetSourceConnection on an existing bridge).  identity (8) x credential (7) x tunnel state (4).
+func transportMatrix() []*caseT {
+	var out []*caseT
+	type ident struct {
+		hs   int
+		cid  int64
+		scid int64
+		temp bool
+	}
+	ids := []ident{{0, 0, 11, true}, {0, 0, 22, true}, {0, 0, 33, true}, {0, 0, 11, false}, {0, 0, 0, true},
+		{1, 22, 11, false}, {1, 11, 11, false}, {2, 11, 22, true}}
+	creds := [][3]string{{"M", "", ""}, {"M", "s3cretM", ""}, {"M", "wrong", ""}, {"M", "", "resume-token-1"}, {"", "", ""},
+		{"F", "", ""}, {"F", "s3cretF", ""}}
+	for _, id := range ids {
+		for _, cr := range creds {
+			for _, ts := range []string{"none", "waiting", "served", "remote"} {
+				c := &caseT{pl: "ok", hs: id.hs, cid: id.cid, asserts: true, scid: id.scid, temp: id.temp,
+					rmid: cr[0], rsec: cr[1], rtok: cr[2], maps: []mappingT{mapM, mapF}, ts: "none"}
+				switch ts {
+				case "waiting":
+					c.ts, c.tsMid = "bridge", "M"
+				case "served":
+					c.ts, c.tsMid, c.served = "bridge", "M", true
+				case "remote":
+					c.ts, c.tsMid = "remote", "M"
+				}
+				out = append(out, c)
+			}
+		}
+	}
+	return out
+}
+
+// configMatrix: configurations and fault points of the cross-node path — this node without a routing table, the
+// other node unreachable (address lookup / dial fails after the ack), a waiting route past its own expiry time.
+func configMatrix() []*caseT {
+	var out []*caseT
+	type ident struct {
+		hs  int
+		cid int64
+	}
+	ids := []ident{{0, 0}, {2, 11}, {1, 11}, {1, 22}, {1, 33}}
+	creds := [][3]string{{"M", "", ""}, {"M", "s3cretM", ""}, {"M", "wrong", ""}, {"M", "", "resume-token-1"}, {"", "", ""},
+		{"F", "", ""}, {"F", "s3cretF", ""}}
+	for _, id := range ids {
+		for _, cr := range creds {
+			mk := func() *caseT {
+				return &caseT{pl: "ok", hs: id.hs, cid: id.cid, rmid: cr[0], rsec: cr[1], rtok: cr[2],
+					maps: []mappingT{mapM, mapF}, ts: "none"}
+			}
+			a := mk()
+			a.cfg = "norouting"
+			b := mk()
+			b.cfg, b.ts, b.tsMid = "norouting", "bridge", "M"
+			c := mk()
+			c.cfg, c.ts, c.tsMid = "nodedown", "remote", "M"
+			d := mk()
+			d.cfg, d.late, d.lateMid = "nodedown", "remote", "M"
+			e := mk()
+			e.ts, e.tsMid = "expired", "M"
+			out = append(out, a, b, c, d, e)
 		}
 	}
 	return out
@@ -1260,10 +1489,24 @@ func randomCases(r *vc.Rand, n int) []*caseT {
 				c.cid = vc.Pick(r, clients)
 			}
 		}
+		// second spellings of the right credential: prefix, extension, other case, surrounding blank
+		if c.rsec != "" && r.Intn(6) == 0 {
+			c.rsec = []string{c.rsec[:len(c.rsec)-1], c.rsec + "x", strings.ToUpper(c.rsec), c.rsec + c.rsec}[r.Intn(4)]
+		}
+		if c.rmid != "" && r.Intn(12) == 0 {
+			c.rmid = []string{strings.ToLower(c.rmid), c.rmid + c.rmid, c.rmid + "x"}[r.Intn(3)]
+		}
+		// the transport asserts an identity
+		if r.Intn(6) == 0 {
+			c.asserts, c.scid, c.temp = true, []int64{0, 11, 22, 33, 34}[r.Intn(5)], r.Bool()
+			if r.Bool() {
+				c.hs = 0
+			}
+		}
 		if c.pl == "empty" {
 			// an empty payload names the empty tunnel id: no pre-existing tunnel can be addressed
 			c.ts, c.tsMid, c.served = "none", "", false
-		} else if c.ts == "none" && r.Intn(2) == 0 {
+		} else if c.ts == "none" && !c.asserts && r.Intn(2) == 0 {
 			// the tunnel appears while the request polls
 			c.late = []string{"bridge", "window", "route", "remote", "window"}[r.Intn(5)]
 			c.lateMid = vc.Pick(r, ids)
@@ -1277,6 +1520,14 @@ func randomCases(r *vc.Rand, n int) []*caseT {
 					}
 				}
 			}
+		}
+		// configuration / fault point
+		if c.late == "" && (c.ts == "none" || c.ts == "bridge") && r.Intn(12) == 0 {
+			c.cfg = "norouting"
+		} else if (c.ts == "remote" || c.late == "remote") && r.Intn(4) == 0 {
+			c.cfg = "nodedown"
+		} else if c.ts == "remote" && r.Intn(5) == 0 {
+			c.ts = "expired"
 		}
 		out = append(out, c)
 	}
@@ -1364,6 +1615,16 @@ func main() {
 			lines = append(lines, c.String())
 		}
 		runAll(out, lines, "late-matrix")
+		lines = nil
+		for _, c := range transportMatrix() {
+			lines = append(lines, c.String())
+		}
+		runAll(out, lines, "transport-matrix")
+		lines = nil
+		for _, c := range configMatrix() {
+			lines = append(lines, c.String())
+		}
+		runAll(out, lines, "config-matrix")
 		runAll(out, []string{"e2e"}, "e2e")
 		runAll(out, []string{"rmw usage", "rmw stats", "rmw status"}, "rmw")
 		n := 600
